@@ -5,6 +5,7 @@ import Drpc.ErrRpc
   Tie (T1) for C10: the functions the models mirror have the fingerprints the models were written
   against, and the constants the models use are the ones in the source.
 -/
+set_option maxRecDepth 100000
 namespace Drpc.Tie.C10
 open Drpc
 
